@@ -1566,6 +1566,10 @@ class Interp:
         except TypeError as e:
             if a is None or b is None or (is_concrete(a) and is_concrete(b)):
                 raise PyExc(self.make_exc(TypeError, *e.args))
+            no_op = lambda x: op in getattr(type(x), "__pyvc_undefined_binops__", ())  # noqa: E731
+            if no_op(a) and no_op(b):
+                # the theory states that the real class defines no such operator (polars frames have no & / |): python's own TypeError
+                raise PyExc(self.make_exc(TypeError, *e.args))
             raise Unsupported(f"binop {op.__name__} on {type(a).__name__},{type(b).__name__}: {e}")
 
     def obj_binop(self, op, a, b):
